@@ -1231,6 +1231,65 @@ def _const_fn_value(f, res, depth=0):
     return int_value(vals[0], f, depth) if len(vals) == 1 else None
 
 
+_FLAGS = {}
+
+
+def flag_threading(b):
+    """{block: successor} for blocks that set a flag local to a constant and go straight to the switch on that flag:
+    `matches!(x, P)`, `let ok = if c { true } else { false }; if ok { … }` leave `_t = const true` / `_t = const false`
+    joined in front of `switchInt(_t)`.  Which arm of that switch runs is decided where the constant is assigned, so the
+    assigning block is given the arm as its successor (the join block does nothing else)."""
+    ent = _FLAGS.get(id(b))
+    if ent is not None and ent[0] is b:
+        return ent[1]
+    out = {}
+    defs = b.defs()
+    for j, blk in enumerate(b.blocks):
+        t = blk["term"]
+        if t["t"] != "switch" or blk.get("cleanup"):
+            continue
+        l, proj = _operand_local(t.get("discr"))
+        if l is None or proj or l <= b.arg_count or any(st["s"] == "assign" for st in blk["stmts"]):
+            continue
+        ds = defs.get(l, [])
+        if len(ds) < 2 or any(d[2] != "assign" for d in ds) or l in K.sym_of(b)._mutb:
+            continue
+        cand = {}
+        for d in ds:
+            rv = d[3]["rv"]
+            k = rv.get("op", {}).get("k") if rv["r"] == "use" else None
+            tt = b.term(d[0])
+            if k is None or "v" not in k or isinstance(k["v"], (str, float)) or tt["t"] != "goto" or tt["target"] != j:
+                cand = None
+                break
+            later = [x for x in ds if x[0] == d[0] and x is not d and isinstance(x[1], int) and isinstance(d[1], int) and x[1] > d[1]]
+            if later:
+                continue
+            cand[d[0]] = edge_for(b, j, int(k["v"]))
+        if cand:
+            out.update(cand)
+    _FLAGS[id(b)] = (b, out)
+    return out
+
+
+def reach_threaded(b, removed_blocks=(), removed_edges=()):
+    """b.reachable(0, …) with the flag joins of flag_threading() decided."""
+    thr = flag_threading(b)
+    if not thr:
+        return set(b.reachable(0, removed_blocks=removed_blocks, removed_edges=removed_edges))
+    rb, re_ = set(removed_blocks), set(removed_edges)
+    seen, work = set(), [0]
+    while work:
+        x = work.pop()
+        if x in seen or x in rb:
+            continue
+        seen.add(x)
+        for y in ([thr[x]] if x in thr else b.succs(x)):
+            if (x, y) not in re_ and y not in seen:
+                work.append(y)
+    return seen
+
+
 class ValueSplit:
     """Reachability in `b` per value of the quantity `leaf` (see the section comment)."""
 
@@ -1328,7 +1387,7 @@ class ValueSplit:
         removed = frozenset((bi, tb) for bi, keep in dec.items() for _, tb in self.b.switch_edges(bi) if tb != keep)
         key = (removed, success_only)
         if key not in self._memo:
-            self._memo[key] = set(self.b.reachable(0, removed_blocks=self.oc.fail_blocks if success_only else (), removed_edges=removed))
+            self._memo[key] = reach_threaded(self.b, removed_blocks=self.oc.fail_blocks if success_only else (), removed_edges=removed)
         return self._memo[key]
 
     def succeeds(self, v):
@@ -1403,7 +1462,7 @@ def octet_split(f, b, is_q):
             removed |= {(bi, tb) for _, tb in b.switch_edges(bi) if tb != taken}
         key = frozenset(removed)
         if key not in memo:
-            memo[key] = set(b.reachable(0, removed_blocks=oc.fail_blocks, removed_edges=removed))
+            memo[key] = reach_threaded(b, removed_blocks=oc.fail_blocks, removed_edges=removed)
         out[v] = memo[key]
     return out
 
